@@ -308,6 +308,14 @@ func (c13Engine) Gen(r *core.Rand, tier string, i int) any {
 		sc.End = c13GenOps(r, 0, kids, false)
 	}
 	sc.Output = core.Pick(r, []string{"bare", "bufio", "bufio-real", "flush"})
+	if kids == "talkers" {
+		// A child that writes to the shared standard output while the program does (finding
+		// F-C13-1) corrupts an unsynchronised buffered writer: with a real bufio.Writer the
+		// os/exec copier goroutine has been seen to panic in bufio.(*Writer).ReadFrom (slice
+		// bounds out of range), which no harness can recover. Such runs use the mutex-protected
+		// bare sink; the overlap itself is observed by the scheduler.
+		sc.Output = "bare"
+	}
 	sc.BufSize = core.Pick(r, []int{16, 64, 4096, 65536})
 	sc.CRLF = r.Chance(1, 8)
 	if r.Chance(1, 3) {
@@ -330,13 +338,6 @@ func (c13Engine) Gen(r *core.Rand, tier string, i int) any {
 	}
 	if r.Chance(1, 20) {
 		sc.Cmds["K1"] = "exit:5" // exits before reading its input
-		if kids != "none" && !sc.Sched {
-			// make the EPIPE certain: the command is gone (a system() call later) when close()
-			// flushes to it; close() must still reap it and report its exit status
-			// (system() flushes every stream first, so the data that meets the dead command must be
-			// printed after it)
-			sc.Begin = append([]c13Op{{Kind: "print", Dest: "K1", Redir: "|"}, {Kind: "system", Name: "S1"}, {Kind: "print", Dest: "K1", Redir: "|"}, {Kind: "close", Name: "K1"}}, sc.Begin...)
-		}
 	}
 	switch f := r.Intn(20); {
 	case f < 4 && kids == "none":
@@ -365,6 +366,13 @@ func (c13Engine) Gen(r *core.Rand, tier string, i int) any {
 		sc.Output, sc.HasFail, sc.FlushFail, sc.DevFull, sc.Enum, sc.CRLF = "bare", false, false, "", "", false
 		for n := r.Range(0, 60); n > 0; n-- {
 			sc.Tape = append(sc.Tape, r.Intn(16))
+		}
+		if r.Chance(1, 6) {
+			// a command that exits without reading: whether it is already gone when close()
+			// flushes to it (EPIPE) is the tape's decision; close() must reap it and report its
+			// exit status either way
+			sc.Cmds["K1"] = "exit:5"
+			sc.Begin = append([]c13Op{{Kind: "print", Dest: "K1", Redir: "|"}, {Kind: "print"}, {Kind: "print", Dest: "K1", Redir: "|"}, {Kind: "close", Name: "K1"}}, sc.Begin...)
 		}
 	}
 	return sc
